@@ -409,6 +409,10 @@ func objectDefineOwnProperty(obj *object, name string, descriptor property, thro
 	value1 := descriptor.value
 	if value1 == nil {
 		value1 = prop.value
+		if !isDataDescriptor && descriptor.isDataDescriptor() {
+			// AccessorDescriptor => DataDescriptor without a value: the value is undefined
+			value1 = Value{}
+		}
 	} else if newGetSet, isAccessor := descriptor.value.(propertyGetSet); isAccessor {
 		if newGetSet[0] == &nilGetSetObject {
 			newGetSet[0] = nil
@@ -424,9 +428,13 @@ func objectDefineOwnProperty(obj *object, name string, descriptor property, thro
 		// (Maybe put into switch ...)
 		mode0 := prop.mode
 		if mode1&0o200 != 0 {
-			if descriptor.isDataDescriptor() {
-				mode1 &= ^0o200 // Turn off "writable" missing
-				mode1 |= (mode0 & 0o100)
+			if _, isData := value1.(Value); isData {
+				// "writable" is missing and the property is (or becomes) a data
+				// property: keep the current attribute, false after a conversion
+				mode1 &= ^0o200
+				if isDataDescriptor {
+					mode1 |= (mode0 & 0o100)
+				}
 			}
 		}
 		if mode1&0o20 != 0 {
